@@ -100,13 +100,18 @@ def const_names(j, acc):
     return acc
 
 
-def signature(skel):
+def signature(skel, ctx):
+    """Declared types of the constants of the skeleton: the theory's signature (type variables schematic), else the
+    type under which the name is being defined (context.ctxt.defs)."""
     sig = []
+    defs = dict(ctx.get("defs", []))
     for name in sorted(const_names(skel, set())):
         try:
             sig.append([name, encT(theory.thy.get_term_sig(name, stvar=True))])
         except theory.TheoryException:
-            pass            # not declared: the event is outside the quantifier (the trace spec sees the gap)
+            if name in defs:
+                sig.append([name, defs[name]])
+            # else not declared: the event is outside the quantifier (the trace spec sees the gap)
     return sig
 
 
@@ -127,7 +132,8 @@ def err_kind(e):
 def run_one(skel, ctx):
     """Call the real type_infer on a fresh Term built from the skeleton; returns (outcome, cls, err, result)."""
     t = dec_skel(skel)
-    context.ctxt = context.Context(vars={n: decT(T) for n, T in ctx["vars"]}, svars={n: decT(T) for n, T in ctx["svars"]})
+    context.ctxt = context.Context(vars={n: decT(T) for n, T in ctx["vars"]}, svars={n: decT(T) for n, T in ctx["svars"]},
+                                   defs={n: decT(T) for n, T in ctx.get("defs", [])})
     signal.setitimer(signal.ITIMER_REAL, CALL_TIMEOUT)
     try:
         try:
@@ -155,7 +161,7 @@ class Log:
         self.times.append(time.perf_counter() - t0)
         self.tid += 1
         ev = {"tid": self.tid, "key": "%s:%s:%s" % (fam, keep, digest([skel, ctx])), "fam": fam, "keep": keep,
-              "declared": bool(declared), "skel": skel, "ctx": ctx, "sig": signature(skel), "orig": orig,
+              "declared": bool(declared), "skel": skel, "ctx": ctx, "sig": signature(skel, ctx), "orig": orig,
               "outcome": outcome, "cls": cls, "err": err, "result": result}
         self.f.write(json.dumps(ev, separators=(",", ":")) + "\n")
 
@@ -340,6 +346,18 @@ def decl_ctx(t):
 NOCTX = {"vars": [], "svars": []}
 
 
+def to_defs(t, names):
+    """Turn the free variables `names` of t into constants under definition (context.ctxt.defs): d_<name>."""
+    k = t[0]
+    if k == "var" and t[1] in names:
+        return ["const", "d_" + t[1], t[2]]
+    if k == "comb":
+        return ["comb", to_defs(t[1], names), to_defs(t[2], names)]
+    if k == "abs":
+        return ["abs", t[1], to_defs(t[2], names)]
+    return t
+
+
 def xv(i, T=None):
     return ["var", "x%d" % i, T if T is not None else NONE]
 
@@ -393,6 +411,22 @@ def random_mode(n, out_path, seed):
             t = g.term(rng.choice(goals), rng.choice([3, 4, 4, 5]), [])
             declared = rng.random() < 0.6
             mode = rng.choice(["none", "vars", "cb", "mixed", "mixed", "mixed"])
+            defs = []
+            if i % 7 == 0:
+                # some free variables become constants that are being defined (context.ctxt.defs); when the term is an
+                # equation  d args = rhs  type_infer takes the type of d from defs before inferring
+                fv = sorted(n for (k, n) in free_vars(t, {}) if k == "var")
+                if fv:
+                    names = set(rng.sample(fv, max(1, len(fv) // 3)))
+                    types = {n: T for (k, n), T in free_vars(t, {}).items() if k == "var"}
+                    if rng.random() < 0.5:
+                        n0 = sorted(names)[0]
+                        A = types[n0]
+                        t = g.bin("equals", fun(A, A, BOOL), ["var", n0, A], g.term(A, 2, []))
+                        types = {n: T for (k, n), T in free_vars(t, {}).items() if k == "var"}
+                        names = {n for n in names if n in types}
+                    t = to_defs(t, names)
+                    defs = [["d_" + n, types[n]] for n in sorted(names)]
             if mode == "none":
                 s = erase(t, rng, 1, 1, 1)
             elif mode == "vars":
@@ -401,7 +435,10 @@ def random_mode(n, out_path, seed):
                 s = erase(t, rng, 1, 0, 0)
             else:
                 s = erase(t, rng, rng.random(), rng.random(), rng.random())
-            log.case("rand", mode, declared, s, decl_ctx(t) if declared else NOCTX, t)
+            ctx = dict(decl_ctx(t) if declared else NOCTX)
+            if defs:
+                ctx["defs"] = defs
+            log.case("randdef" if defs else "rand", mode, declared, s, ctx, t)
         else:
             nv = rng.choice([3, 4, 5, 6])
             atoms = [atom(rng, nv) for _ in range(rng.choice([3, 4, 5, 6, 7, 8]))]
